@@ -118,19 +118,19 @@ func init() {
 		Name: "once-3", Props: []string{"C16"}, MustFinish: true, ObsNames: stdObs,
 		Doc:   "promise.Once: 3 concurrent Resolve callers, function outcome script chosen from [ok],[err,ok],[err,err,ok], fast or slow function; late callers afterwards",
 		Quick: eng.Bounds{PB: 1}, Thorough: eng.Bounds{PB: 2},
-		Body:  onceBody(3, false, false),
+		Body: onceBody(3, false, false),
 	})
 	eng.Register(&eng.Scenario{
 		Name: "once-cancel", Props: []string{"C16"}, MustFinish: true, ObsNames: stdObs,
 		Doc:   "promise.Once: a cancellable caller + canceller and a live caller; scripts as in once-3",
 		Quick: eng.Bounds{PB: 2}, Thorough: eng.Bounds{PB: 3},
-		Body:  onceBody(2, true, false),
+		Body: onceBody(2, true, false),
 	})
 	eng.Register(&eng.Scenario{
 		Name: "once-ctxaware", Props: []string{"C16"}, MustFinish: true, ObsNames: stdObs,
 		Doc:   "promise.Once: 2 callers + canceller, the function honours its context (returns Canceled when the starter's context is cancelled)",
 		Quick: eng.Bounds{PB: 2}, Thorough: eng.Bounds{PB: 3},
-		Body:  onceBody(2, true, true),
+		Body: onceBody(2, true, true),
 	})
 	eng.Register(&eng.Scenario{
 		Name: "memo-3", Props: []string{"C16"}, MustFinish: true, ObsNames: stdObs,
